@@ -164,9 +164,9 @@ def run(ctx):
                     continue
                 ga, gb = (gd[1], gd[2]) if gd[0] == "range" else (0, gd[1])
                 if ga > lo:
-                    ctx.violate("size.exact-guard", key + "|min", f"{a.name} ({p['scope']}): guard minimum {ga} rejects the shortest valid encoding ({lo} bytes) (wowm {a.file}:{a.line})", fn["file"], fn["line"])
+                    ctx.violate("size.exact-guard", key + f"|min|{ga}>{lo}", f"{a.name} ({p['scope']}): guard minimum {ga} rejects the shortest valid encoding ({lo} bytes) (wowm {a.file}:{a.line})", fn["file"], fn["line"])
                 if gb < want_hi:
-                    ctx.violate("size.exact-guard", key + "|max", f"{a.name} ({p['scope']}): guard maximum {gb} rejects valid encodings up to {want_hi} bytes (wowm {a.file}:{a.line})", fn["file"], fn["line"])
+                    ctx.violate("size.exact-guard", key + f"|max|{gb}<{want_hi}", f"{a.name} ({p['scope']}): guard maximum {gb} rejects valid encodings up to {want_hi} bytes (wowm {a.file}:{a.line})", fn["file"], fn["line"])
             if n <= 3:
                 ctx.sample({"message": a.name, "scope": p["scope"], "reference_interval": [lo, hi if hi != wowm.INF else "inf"], "guard": list(gd)})
         # D2: size_without_header literal of constant-sized messages
